@@ -14,6 +14,7 @@ import (
 	"time"
 
 	"verifharness/internal/core"
+	"verifharness/internal/dump"
 	"verifharness/internal/props"
 	"verifharness/internal/runner"
 )
@@ -70,6 +71,9 @@ func main() {
 		rep.OpenOut("/dev/stdout")
 		rep.FlushDelta()
 		fmt.Fprintf(os.Stderr, "unit %d of %d took %v\n", idx, p.NumUnits(os.Args[3], envSeed()), time.Since(t0))
+	case "dbg":
+		// debugging aid: vcheck dbg <witness.json> <query kind> [byte]  - run a query on the witness' recipe+files and dump the result
+		os.Exit(dbg(os.Args[2:]))
 	case "replay":
 		if len(os.Args) < 3 {
 			usage()
@@ -238,5 +242,52 @@ func replay(path string) int {
 		return 1
 	}
 	fmt.Printf("NOT-REPRODUCED property=%s signature=%q (the recorded violation does not occur on the current tree)\n", w.Property, w.Sig)
+	return 0
+}
+
+func dbg(args []string) int {
+	b, err := os.ReadFile(args[0])
+	if err != nil {
+		fmt.Fprintln(os.Stderr, err)
+		return 2
+	}
+	var w runner.Witness
+	json.Unmarshal(b, &w)
+	var u struct {
+		Recipe props.Recipe `json:"recipe"`
+		Path   string       `json:"path"`
+		File   string       `json:"file"`
+	}
+	json.Unmarshal(w.Unit, &u)
+	ws, err := u.Recipe.Make()
+	if err != nil {
+		fmt.Fprintln(os.Stderr, err)
+		return 2
+	}
+	for k, src := range w.Files {
+		for p, spec := range ws.Paths {
+			if strings.HasPrefix(k, p+"/") {
+				spec.Files[strings.TrimPrefix(k, p+"/")] = src
+			}
+		}
+	}
+	env := ws.Build(true)
+	kind, ok := core.QKindByName(args[1])
+	if !ok {
+		fmt.Fprintln(os.Stderr, "unknown kind")
+		return 2
+	}
+	q := core.Query{Kind: kind, Path: u.Path, File: u.File}
+	if len(args) > 2 {
+		off, _ := strconv.Atoi(args[2])
+		q.Pos = env.Tables[u.Path][u.File].Near(off)
+	}
+	r := env.Run(q)
+	fmt.Println(q.String())
+	if r.Panic != nil {
+		fmt.Println("PANIC", r.Panic.Value, r.Panic.Stack)
+	}
+	fmt.Println("err:", r.Err)
+	fmt.Println(dump.String(r.Value, dump.Options{Indent: true}))
 	return 0
 }
